@@ -143,7 +143,7 @@ def cond_polarity_fix(machine, env):
     return env
 
 
-def gen_case(rng, malformed=False, hist_len=None, may=False, p_unknown=0.1):
+def gen_case(rng, malformed=False, hist_len=None, may=False, p_unknown=0.1, p_build=0.0):
     g = Gen(rng, malformed=malformed)
     m = g.machine()
     env = cond_polarity_fix(m, g.env())
@@ -155,7 +155,13 @@ def gen_case(rng, malformed=False, hist_len=None, may=False, p_unknown=0.1):
         e = rng.randrange(ne) if rng.random() >= p_unknown else ne + 3      # unknown event now and then
         k = rng.choice([0, 0, 2]) if not may else rng.choice([0, 1, 1])
         hist.append((k, e, 100 + i))
-    return dict(machine=m, env=env, model=0, init=rng.randrange(ns), history=hist, cls='Machine')
+    out = dict(machine=m, env=env, model=0, init=rng.randrange(ns), history=hist, cls='Machine')
+    if p_build and rng.random() < p_build:
+        out['build'] = rng.randint(1, 7)
+        if out['build'] & 2:
+            # make the call-level flag matter: the initial state leaves its setting to the add_states call
+            dict(m['states'])[out['init']]['ignore'] = not m['ignore']
+    return out
 
 
 def gen_ordered_case(rng):
@@ -416,11 +422,29 @@ def build_machine(case, world, cls=None, model=None, extra_kwargs=None, models=N
             return name
     else:
         R = world.recorder
+    # construction routes (case['build'], see gen_case): bit 1 = enter/exit callbacks registered afterwards with
+    # machine.on_enter / machine.on_exit; bit 2 = states added after construction by add_states(...,
+    # ignore_invalid_triggers=<not the machine's flag>) - states whose own flag equals it leave it to the call -,
+    # the model by add_model(initial=...); bit 4 = states without final / ignore settings given as plain names,
+    # their callbacks through add_states(name, on_enter=..., on_exit=...)
+    variant = case.get('build', 0) if models is None else 0
+    call_ignore = (not m['ignore']) if variant & 2 else None
     states = []
+    later = []
+    by_name = []
     for s, d in m['states']:
-        states.append(dict(name='s%d' % s, on_enter=[R('enter', c) for c in d['enter']],
-                           on_exit=[R('exit', c) for c in d['exit']],
-                           ignore_invalid_triggers=d['ignore'], final=d['final']))
+        sd = dict(name='s%d' % s, ignore_invalid_triggers=d['ignore'], final=d['final'])
+        ent, exi = [R('enter', c) for c in d['enter']], [R('exit', c) for c in d['exit']]
+        if (variant & 4) and not d['final'] and d['ignore'] is None and s != case['init']:
+            by_name.append(('s%d' % s, ent, exi))
+            continue
+        if variant & 1:
+            later.append(('s%d' % s, ent, exi))
+        else:
+            sd.update(on_enter=ent, on_exit=exi)
+        if call_ignore is not None and d['ignore'] == call_ignore:
+            del sd['ignore_invalid_triggers']
+        states.append(sd)
     model = model if model is not None else Model()
     if models is not None:
         model = models
@@ -434,7 +458,27 @@ def build_machine(case, world, cls=None, model=None, extra_kwargs=None, models=N
               on_final=[R('on_final', c) for c in m['on_final']])
     if extra_kwargs:
         kw.update(extra_kwargs)
-    machine = cls(**kw)
+    if call_ignore is not None:
+        sts, ini = kw.pop('states'), kw.pop('initial')
+        kw['model'] = None
+        kw['initial'] = None
+        machine = cls(**kw)
+        machine.add_states(sts, ignore_invalid_triggers=call_ignore)
+        for name, ent, exi in by_name:
+            machine.add_states(name, on_enter=ent, on_exit=exi)
+        machine.add_model(model, initial=ini)
+    else:
+        machine = cls(**kw)
+        for name, ent, exi in by_name:
+            machine.add_states(name, on_enter=ent, on_exit=exi)
+    for k_l, (name, ent, exi) in enumerate(later):
+        # Machine.__getattr__ provides on_enter_<state>(callback) / on_exit_<state>(callback); the hierarchical classes
+        # have on_enter(state, callback) / on_exit(state, callback) as well
+        use_method = hasattr(type(machine), 'on_enter') and k_l % 2 == 0
+        for cb in ent:
+            machine.on_enter(name, cb) if use_method else getattr(machine, 'on_enter_' + name)(cb)
+        for cb in exi:
+            machine.on_exit(name, cb) if use_method else getattr(machine, 'on_exit_' + name)(cb)
     od = case.get('ordered')
     for e, ts in m['events']:
         if od is not None and od['event'] == e:
